@@ -414,9 +414,13 @@ def case_term(case, obs):
                 return "false"
     ob = clist("(%s, %s)" % (clist(_vrow(r) for r in st["vrows"]), clist(_crow(r) for r in st["crows"])) for st in steps)
     collar, table, ops = cv3(case["collar"]), _table(case), _ops_term(case)
-    # histories in which two vertices share a depth are outside the model (np.argsort's tie order is unspecified):
-    # the term is then vacuously true and the oracle alone judges the case
-    return f"(negb (hole_expressible {collar} {table} empty_hole {ops}) || hole_agree {collar} {table} empty_hole {ops} {ob})"
+    # histories in which two vertices share a depth are outside the model (np.argsort's tie order is unspecified): counted as
+    # not expressible, the oracle alone judges them
+    for st in steps:
+        ds = [r[0] for r in st["vrows"] if r[0] is not None]
+        if len(ds) != len(set(Fraction(d) for d in ds)):
+            return None
+    return f"hole_agree {collar} {table} empty_hole {ops} {ob}"
 
 
 def model_term(case):
